@@ -149,6 +149,7 @@ class Engine(object):
         self.max_paths = max_paths
         self.cur_func = None
         self.classes = {}                  # class name -> {method name: FunctionDef}
+        self.expr_depth = 0
         self.config = 'fallback'           # 'compiled': imports of the C extension modules succeed (extracted text)
         self._solver = None
         self.loop_cover = {}               # loop key -> reached
@@ -483,7 +484,7 @@ class Engine(object):
             rec = st.vars[fn]
             args = [self.ev(a, st, pc) for a in e.args]
             kw = {k.arg: self.ev(k.value, st, pc) for k in e.keywords}
-            return self.adopt_single(self.method_paths(rec, '__call__', args, kw, st, pc, e), st, pc, rec.cls + '.__call__')
+            return self.adopt_single(self.in_expr(self.method_paths, rec, '__call__', args, kw, st, pc, e), st, pc, rec.cls + '.__call__')
         if isinstance(e.func, ast.Attribute) and isinstance(e.func.value, ast.Name) and \
                 isinstance(st.vars.get(e.func.value.id), Rec):
             rec = st.vars[e.func.value.id]
@@ -499,7 +500,7 @@ class Engine(object):
             if cls is None and rec.cls in CLASS_HOME:
                 args = [self.ev(a, st, pc) for a in e.args]
                 kw = {k.arg: self.ev(k.value, st, pc) for k in e.keywords}
-                return self.adopt_single(self.method_paths(rec, mname, args, kw, st, pc, e), st, pc, rec.cls + '.' + mname)
+                return self.adopt_single(self.in_expr(self.method_paths, rec, mname, args, kw, st, pc, e), st, pc, rec.cls + '.' + mname)
         if isinstance(e.func, ast.Attribute) and e.func.attr in ('append', 'extend') and isinstance(e.func.value, ast.Name) \
                 and type(st.vars.get(e.func.value.id)) is list:
             lst = st.vars[e.func.value.id]
@@ -520,18 +521,44 @@ class Engine(object):
         if isinstance(e.func, ast.Name) and isinstance(st.vars.get(fn), FuncRef):
             args = [self.ev(a, st, pc) for a in e.args]
             kw = {k.arg: self.ev(k.value, st, pc) for k in e.keywords}
-            paths = self.callee_paths(st.vars[fn], args, kw, st, pc, e)
+            paths = self.in_expr(self.callee_paths, st.vars[fn], args, kw, st, pc, e)
             return self.adopt_single(paths, st, pc, fn)
         if isinstance(e.func, ast.Name):
             target = st.vars.get(fn)
             if isinstance(target, Closure):
                 args = [self.ev(a, st, pc) for a in e.args]
-                return self.inline_merge(target.fdef, args, {}, st, pc, e, env=target.env)
+                n_obl = len(self.obls)
+                try:
+                    return self.inline_merge(target.fdef, args, {}, st, pc, e, env=target.env)
+                except Unsupported as ex:
+                    if 'heap effects' not in str(ex) or self.mode != 'B':
+                        raise
+                    del self.obls[n_obl:]
+                    # a local helper that allocates: executed as a callee of its own (single path, or the statement forks)
+                    vs = dict(target.env)
+                    vs.update(self.bind_args(target.fdef, args, {}, st, pc))
+                    callee = State(vs, dict(st.heap))
+                    paths = self.in_expr(self.exec_block, target.fdef.body, callee, pc.copy())
+                    outp = []
+                    for (s2, pc2, o2) in paths:
+                        if o2 is None:
+                            o2 = ('ret', None)
+                        if o2[0] != 'ret':
+                            raise Unsupported("local helper %s ends with %s" % (target.fdef.name, o2[0]))
+                        outp.append((State(dict(st.vars), s2.heap), pc2, o2[1]))
+                    return self.adopt_single(outp, st, pc, target.fdef.name)
             if fn in self.funcs:
                 args = [self.ev(a, st, pc) for a in e.args]
                 kw = {k.arg: self.ev(k.value, st, pc) for k in e.keywords}
                 return self.inline_merge(self.funcs[fn], args, kw, st, pc, e)
         raise Unsupported("call to %s at line %d" % (fn, e.lineno))
+
+    def in_expr(self, fn, *a):
+        self.expr_depth += 1
+        try:
+            return fn(*a)
+        finally:
+            self.expr_depth -= 1
 
     def adopt_single(self, paths, st, pc, what):
         """expression-level call of a callee with heap effects: allowed when it has exactly one path"""
@@ -554,7 +581,7 @@ class Engine(object):
         self.funcs = mod.funcs
         self.classes = {cn: {m.name: m for m in cd.body if hasattr(m, 'name')} for cn, cd in mod.classes.items()}
         try:
-            paths = self.callee_paths(init, [rec] + args, kw, st, pc, node)
+            paths = self.in_expr(self.callee_paths, init, [rec] + args, kw, st, pc, node)
         finally:
             self.funcs, self.classes, self.cur_func = saved
         self.adopt_single(paths, st, pc, cname + '.__init__')
@@ -703,6 +730,34 @@ class Engine(object):
                 return vals[0]
             raise ForkRequest(k == vals[0])
         raise Unsupported("int() of symbolic")
+
+    def bi_np_flatnonzero(self, args, kw, st, pc, node):
+        a = args[0]
+        if not isinstance(a, (ArrV, LazyArr)) or not isinstance(a.n, int):
+            raise Unsupported("np.flatnonzero of symbolic length")
+        idx = [k for k in range(a.n) if self.demand_bool(self.truth(st.elem(a, k), st, pc, node), pc)]
+        return st.alloc(idx, len(idx), "flatnonzero@%d" % node.lineno)
+
+    def bi_np_delete(self, args, kw, st, pc, node):
+        a, idx = args[0], args[1]
+        vals = self._elems(a, st, pc)
+        drop = self._elems(idx, st, pc) if isinstance(idx, (ArrV, LazyArr, list, tuple)) else [idx]
+        if not all(isinstance(k, int) and not isinstance(k, bool) for k in drop):
+            raise Unsupported("np.delete with symbolic positions")
+        for k in drop:
+            self.oblige("bounds:np.delete@%d" % node.lineno, pc, -len(vals) <= k < len(vals))
+        dropset = set(k % len(vals) for k in drop) if vals else set()
+        out = [v for k, v in enumerate(vals) if k not in dropset]
+        return st.alloc(out, len(out), "delete@%d" % node.lineno)
+
+    def bi_np_where(self, args, kw, st, pc, node):
+        if len(args) == 1:
+            return (self.bi_np_flatnonzero(args, kw, st, pc, node),)
+        c_, a, b = args
+        n_ = c_.n
+        ga = (lambda k: st.elem(a, k)) if isinstance(a, (ArrV, LazyArr)) else (lambda k: a)
+        gb = (lambda k: st.elem(b, k)) if isinstance(b, (ArrV, LazyArr)) else (lambda k: b)
+        return LazyArr(n_, lambda k: ite(self.truth(st.elem(c_, k), st, pc, node), ga(k), gb(k)))
 
     def bi_np_arange(self, args, kw, st, pc, node):
         if not all(isinstance(a, int) for a in args):
@@ -1130,7 +1185,9 @@ class Engine(object):
         m = getattr(self, 'st_' + type(s).__name__, None)
         if m is None:
             raise Unsupported("statement %s at line %d" % (type(s).__name__, s.lineno))
-        if self.mode != 'B':
+        if self.mode != 'B' or self.expr_depth > 0:
+            # inside a callee that is being evaluated as part of an expression, a fork request travels up to the
+            # enclosing statement of the function under verification, which is then re-executed under both outcomes
             return m(s, st, pc)
         st0, pc0 = st.copy(), pc.copy()
         try:
